@@ -272,7 +272,7 @@ func (c *Ctx) Finish(rule string) int {
 		Assumptions: append([]string{"scalar primitives evaluated by the GrolPrims override are correct"}, c.assume...),
 		WallS:       time.Since(c.Start).Seconds(), Violations: len(c.violations),
 	}
-	if c.states < 1 || c.trans < 1 {
+	if (c.states < 1 || c.trans < 1) && len(c.violations) == 0 {
 		fmt.Fprintf(os.Stderr, "INFRASTRUCTURE property=%s: no TLC states recorded\n", c.Prop)
 		return 2
 	}
